@@ -115,7 +115,7 @@ def run_c06(ctx):
         kinds = [("scalar", 2), ("tuple2", 1), ("int", 1), ("str", 1)]
     else:
         kinds = [("scalar", 3), ("tuple2", 2), ("array", 1), ("scalar+array", 1), ("dict", 1),
-                 ("dataset", 1), ("int", 1), ("bool", 1), ("array-constdim", 1)]
+                 ("dataset", 1), ("int", 1), ("bool", 1), ("array-constdim", 1), ("holes", 1)]
     m = CropMachine(ctx, kinds=kinds, max_n=16, max_batches=6, farmer_roles=[role],
                     allow_cases=(role != "sampler"), ext_choice=True,
                     world_cfg={"mtime_granularity": "tape"})
